@@ -673,3 +673,85 @@ pub(crate) fn weak_new_cyclic_panics_while_tracing() {
     let cc: Cc<Node> = Cc::new_cyclic(|_w: &Weak<Node>| Node::new(0));
     core::mem::forget(cc);
 }
+
+// ------------------------------------------------------------------------------------------------
+// Cc::new_cyclic (C14), the two panic paths, through the unwind emulation (A-UNWIND)
+// ------------------------------------------------------------------------------------------------
+/// payload without Cc fields whose destructor only counts: safe to "drop" even on arbitrary bytes
+pub(crate) struct Counted(pub u64);
+pub(crate) static mut COUNTED_DROPS: u32 = 0;
+pub(crate) static mut COUNTED_TRACES: u32 = 0;
+unsafe impl Trace for Counted {
+    fn trace(&self, _: &mut Context<'_>) {
+        unsafe { COUNTED_TRACES += 1 };
+    }
+}
+impl Finalize for Counted {
+    fn finalize(&self) {
+        unsafe { COUNTED_TRACES += 1 };
+    }
+}
+impl Drop for Counted {
+    fn drop(&mut self) {
+        unsafe { COUNTED_DROPS += 1 };
+    }
+}
+#[allow(static_mut_refs)]
+static mut SAVED_C: Option<Weak<Counted>> = None;
+
+/// The closure panics: no T is dropped, the box is released with its layout, allocated_bytes is back,
+/// clones saved by the closure stay dead for ever and the last one frees the side record.
+//@ C14 C07 C03 C09 | complete | deciding | feat=full,finweak | fn=Cc::new_cyclic,PanicGuard::drop,CcBox::drop_metadata,cc_dealloc | timeout=900
+#[kani::proof]
+#[kani::unwind(9)]
+#[allow(static_mut_refs)]
+pub(crate) fn weak_new_cyclic_closure_panics() {
+    #[cfg(feature = "auto-collect")]
+    let _ = crate::config::config(|c| c.set_auto_collect(false));
+    let b0 = state(|s| sp::snap(s)).bytes;
+    let poisoned: Cc<Counted> = Cc::new_cyclic(|w: &Weak<Counted>| {
+        unsafe { SAVED_C = Some(w.clone()) };
+        ghost::start_panic(); // emulated `panic!` inside the closure
+        Counted(0) // never produced by a real panic: forgotten by the hook, never dropped
+    });
+    core::mem::forget(poisoned);
+    kani::assert(ghost::catch(), "Cc::new_cyclic::unwind::panic_propagates_to_the_caller");
+    kani::assert(unsafe { COUNTED_DROPS } == 0 && unsafe { COUNTED_TRACES } == 0, "Cc::new_cyclic::unwind::no_value_of_T_dropped_or_touched");
+    kani::assert(state(|s| sp::snap(s)).bytes == b0, "Cc::new_cyclic::unwind::all_box_memory_released_and_accounted");
+    {
+        let sn = state(|s| sp::snap(s));
+        kani::assert(pc_view().1 == 0 && !sn.collecting && !sn.finalizing && !sn.dropping, "Cc::new_cyclic::unwind::collector_idle");
+    }
+    let saved = unsafe { SAVED_C.take().unwrap() };
+    kani::assert(saved.strong_count() == 0 && saved.upgrade().is_none(), "Cc::new_cyclic::unwind::saved_clones_stay_dead");
+    kani::assert(saved.weak_count() == 1, "Weak::weak_count::post::reads_record_count");
+    let c2 = saved.clone();
+    kani::assert(c2.upgrade().is_none() && saved.weak_count() == 2, "Cc::new_cyclic::unwind::saved_clones_stay_dead");
+    drop(c2);
+    drop(saved); // last Weak: frees the record (double free / layout checked by CBMC)
+}
+
+/// The collection started automatically by new_cyclic panics (a buffered object's trace panics):
+/// no value of T exists yet, so none may be dropped.
+//@ C14 C07 | bounded: one buffered object whose trace panics, auto-collect due | deciding | feat=full | fn=Cc::new_cyclic,Cc::new,trigger_collection | timeout=900
+#[cfg(feature = "auto-collect")]
+#[kani::proof]
+#[kani::unwind(12)]
+pub(crate) fn weak_new_cyclic_automatic_collection_panics() {
+    let h = mk_node(0);
+    drop(h.clone()); // buffered: the collection will trace it
+    state(|s| sp::set_bytes(s, 1000 + NODE_BOX)); // above the threshold: Cc::new inside new_cyclic collects
+    g().fault_kind = 1;
+    g().fault_k = 1; // the first trace call panics
+    let b0 = state(|s| sp::snap(s)).bytes;
+    let e0 = state(|s| sp::snap(s)).execs;
+    let poisoned: Cc<Counted> = Cc::new_cyclic(|_w: &Weak<Counted>| Counted(7));
+    core::mem::forget(poisoned);
+    kani::assert(ghost::catch(), "Cc::new_cyclic::unwind::panic_of_automatic_collection_propagates");
+    kani::assert(state(|s| sp::snap(s)).execs == e0 + 1, "trigger_collection::post::collects_exactly_when_due_and_at_most_once");
+    kani::assert(unsafe { COUNTED_DROPS } == 0, "Cc::new_cyclic::unwind::no_value_of_T_dropped_or_touched");
+    kani::assert(state(|s| sp::snap(s)).bytes == b0, "Cc::new_cyclic::unwind::all_box_memory_released_and_accounted");
+    let sn = state(|s| sp::snap(s));
+    kani::assert(!sn.collecting && !sn.finalizing && !sn.dropping, "Cc::new_cyclic::unwind::collector_idle");
+    core::mem::forget(h);
+}
